@@ -99,6 +99,27 @@ theorem C03_table_scripts :
       [.guard "KeyError", .cwrite "_data" "set"],
       [.cwrite "_data" "pop", .rem] ] := by decide
 
+/-- The rejecting statements of the mutator bodies WITH their conditions, as read from the source: the four
+    `update_*` forms reject a name that is not a key of their own container; `make_parameter_dynamic` rejects, BEFORE it
+    converts the parameter, every flux name that is neither a reaction nor a surrogate flux with a NON-EMPTY
+    stoichiometry (`surrogate.stoichiometries.get(name)` truthy — the model's `isFlux` / `surHasFlux`), and its writing
+    loop looks for exactly the same targets (`:=` … truthy), so that its late `raise` cannot fire
+    (`makeParameterDynamic_good`).  No other mutator has an explicit rejecting statement.  A reworded condition makes
+    this fail on the next run. -/
+theorem C03_table_guards :
+    Gen.guards .update_parameter = ["if v0 not in self._parameters:; raise KeyError"] ∧
+    Gen.guards .update_variable = ["if v0 not in self._variables:; raise KeyError"] ∧
+    Gen.guards .update_surrogate = ["if v0 not in self._surrogates:; raise KeyError"] ∧
+    Gen.guards .update_data = ["if v0 not in self._data:; raise KeyError"] ∧
+    Gen.guards .make_parameter_dynamic =
+      ["for v4 in v2 or {}:; if v4 not in self._reactions and (not any((v5.stoichiometries.get(v4) for v5 in self._surrogates.values()))):; raise KeyError",
+       "if v2 is not None:; for v4, v3 in v2.items():; v6 = False; if (v7 := self._reactions.get(v4)) is not None:; v6 = True; v7.stoichiometry[v0] = v3; else:; for v5 in self._surrogates.values():; if (v8 := v5.stoichiometries.get(v4)):; v6 = True; v8[v0] = v3; if not v6:; raise KeyError"] ∧
+    (∀ m, m ∉ [Gen.Mut.update_parameter, .update_variable, .update_surrogate, .update_data, .make_parameter_dynamic] →
+      Gen.guards m = []) := by
+  refine ⟨rfl, rfl, rfl, rfl, rfl, ?_⟩
+  intro m hm
+  cases m <;> first | rfl | (exact absurd (by decide) hm)
+
 /-- "validate first": no mutator has a rejecting statement after its first write, except the final
     `if not target: raise` of `make_parameter_dynamic` (which the model carries as `setStoich`'s failure and
     `makeParameterDynamic_good` proves unreachable after the up-front check); and every method that the model
